@@ -280,6 +280,8 @@ int do_op (string line) {
   case "sappend": v[a] += b; break;              // string += number: EXTEND_SVALUE_STRING
   case "sjoin": v[a] += v[b]; break;             // string += string: SVALUE_STRING_JOIN
   case "sadd": v[a] = v[b] + c; break;           // string + number on a pushed copy
+  case "saddl": v[a] = c + v[b]; break;          // number + string: SVALUE_STRING_ADD_LEFT
+  case "sadd2": v[a] = v[b] + v[c]; break;       // string + string on two pushed copies
   case "schar": v[a][b] = w[3][0]; break;        // unlink_string_svalue + byte store
   case "srange": v[a][b..c] = w[4]; break;       // unlink_string_svalue + copy_lvalue_range
   case "rest": catch (restore_variable (w[1])); break;      // value builder on a (possibly damaged) save text
